@@ -10,14 +10,21 @@ import heapq
 from .core import CLOCK
 
 
+class LoopSpin(RuntimeError):
+    """the loop never gets idle: callbacks keep being ready at one and the same instant"""
+
+
 class VirtualLoop(asyncio.SelectorEventLoop):
     def __init__(self, origin_us: int):
         super().__init__()
         self.origin_us = origin_us      # instant (µs since 0001-01-01) of loop time 0
         self.vt_us = 0
         self._clock_resolution = 1e-7
-        self.max_iterations = 2_000_000
+        self.max_iterations = 150_000
         self._iterations = 0
+        self.max_same_instant = 20_000
+        self._same_instant = 0
+        self._last_vt = -1
         CLOCK.instant = origin_us
 
     def time(self):
@@ -29,8 +36,15 @@ class VirtualLoop(asyncio.SelectorEventLoop):
 
     def _run_once(self):
         self._iterations += 1
+        if self.vt_us == self._last_vt:
+            self._same_instant += 1
+            if self._same_instant > self.max_same_instant:
+                raise LoopSpin(f"no progress of time during {self._same_instant} loop iterations at t={self.vt_us}us")
+        else:
+            self._last_vt = self.vt_us
+            self._same_instant = 0
         if self._iterations > self.max_iterations:
-            raise RuntimeError("virtual loop: iteration budget exhausted (a job spinning at one instant?)")
+            raise LoopSpin(f"iteration budget of {self.max_iterations} loop iterations exhausted (jobs keep running far beyond what the scenario plans)")
         if not self._ready and self._scheduled:
             while self._scheduled and self._scheduled[0]._cancelled:
                 h = heapq.heappop(self._scheduled)
